@@ -63,6 +63,12 @@ const TEXTS: &[&str] = &["x", "speed: ", "a&b", "<tag>", "é€", " lead", "q\"u
 const APPS: &[&str] = &["APP", "DR", "A", "éé", "BC", "C", "A ", "DOOR", "DOOR_L", "DOOR_R"];
 const CTXS: &[&str] = &["CTX1", "C2", "TIME", "A", "AB", "AB ", "BODY", "BODY1", "BODY2"];
 
+fn wide_id(r: &mut Rng) -> String {
+    const CH: &[&str] = &["A", "b", "7", "_", "é", "ß", "€", "あ", "𝄞", "😀"];
+    let n = 1 + r.usize_below(9);
+    (0..n).map(|_| *r.pick(CH)).collect()
+}
+
 fn ti(kind: TypeInfoKind, coding: StringCoding) -> TypeInfo {
     TypeInfo {
         kind,
@@ -230,8 +236,12 @@ pub fn gen_model(r: &mut Rng, small: bool) -> Model {
         }
         let opt = |r: &mut Rng, v: &str| if r.chance(5, 6) { Some(v.to_string()) } else { None };
         let ext = if r.chance(5, 6) {
-            let app = *r.pick(APPS);
-            let ctx = *r.pick(CTXS);
+            // one frame in five: ids of 1-9 scalars drawn from 1-, 2-, 3- and 4-byte characters, so that a
+            // multi-byte character straddles every byte offset (an id is text in the model, not a 4-byte field)
+            let (app_s, ctx_s) = (wide_id(r), wide_id(r));
+            let wide = r.chance(1, 5);
+            let app = if wide { app_s.as_str() } else { *r.pick(APPS) };
+            let ctx = if wide && r.chance(2, 3) { ctx_s.as_str() } else { *r.pick(CTXS) };
             let mt = *r.pick(&["DLT_TYPE_LOG", "DLT_TYPE_APP_TRACE", "DLT_TYPE_CONTROL"]);
             let mi = *r.pick(&["DLT_LOG_WARN", "DLT_LOG_INFO", "x&y"]);
             Some(Ext {
